@@ -1366,6 +1366,7 @@ def _vfc_loops():
 class VectorFftCorr(Unit):
     """vector_fft_corr(snapshots, qvector, vectors, dt, outputfile): frame-averaged spectra + per-wave-vector time correlation of the
     FFT / T_FFT / L_FFT columns.  Callee contracts: vector_decomposition_sq (this module), time_correlation (C14.Spec)."""
+    file_clause_in_own_contract = True      # returns a dict of frames: `npy file = frame values` is a clause of this unit (read by contracts/C18.FrameOf)
     module = MOD
     qualname = "vector_fft_corr"
     prop = "C15"
